@@ -5,6 +5,7 @@ import FcpptProofs.C03.Term
 import FcpptProofs.C03.Help
 import FcpptProofs.C03.Fuel
 import FcpptProofs.C03.Labels
+import FcpptProofs.C03.Names
 /-!
 # C03 — property theorems (see notes/C03.md for the clause-by-clause coverage)
 
@@ -190,6 +191,19 @@ theorem flags_never_positional {st : List Arg} {c : Ctx} {x z : List Arg} {y : A
       | cons d r => by_cases hd : d = '-' <;> simp [hd] at this
     · simp [hc]
 
+/-- the public `fcppt::options::is_option` (a leading dash) and the internal `is_flag` agree on what is not positional -/
+theorem is_option_iff_is_flag (s : String) : flagLike s = (isFlag s).isSome := by
+  unfold flagLike isFlag
+  cases hl : s.toList with
+  | nil => simp
+  | cons ch rest =>
+    by_cases hc : ch = '-'
+    · subst hc
+      cases rest with
+      | nil => simp
+      | cons d r => by_cases hd : d = '-' <;> simp [hd]
+    · simp [hc]
+
 /-- **an option's value is never taken as a positional argument**: if the tokens before `n` read as complete
 flags / option-value pairs and `n` is an option name of the context, the token right after `n` is not what
 `next_arg` returns -/
@@ -218,6 +232,64 @@ theorem argument_takes_next_arg {f : Nat} {l : String} {ty : VTy} {nm : String} 
       obtain ⟨rfl, rfl, rfl⟩ := h
       exact ⟨x, y, z, rfl, rfl, rfl, by simpa using hv⟩
     · cases h
+
+/-! ## names: the sets behind `flag_names()` / `option_names()` and the `parse_context` -/
+
+/-- `operator<` of `option_name` (by name, then long before short) is a strict total order and `operator==` is its
+equivalence: what the `std::set<option_name>` of a `parse_context` needs for `contains` to mean membership -/
+theorem option_name_order_strict_total (a b c : String × Bool) :
+    optLt a a = false ∧ (optLt a b = true → optLt b a = false) ∧ (optLt a b = true → optLt b c = true → optLt a c = true) ∧
+      (a ≠ b → optLt a b = false → optLt b a = true) ∧ (a = b ↔ optLt a b = false ∧ optLt b a = false) :=
+  ⟨optLt_irrefl a, optLt_asymm, optLt_trans, optLt_total, optLt_eq_iff a b⟩
+
+/-- the name sets have exactly the members of the name lists the interpreter looks names up in -/
+theorem name_sets_members (p : OP) (n : String) (o : String × Bool) :
+    (n ∈ p.flagNameSet ↔ n ∈ p.flagNames) ∧ (o ∈ p.optionNameSet ↔ o ∈ p.optionNames) :=
+  ⟨mem_toSet _ _ _, mem_toSet _ _ _⟩
+
+/-- names handed upwards: `optional` / `many` pass their parser's names on, product and sum hand on both sides',
+`commands` hands on nothing (its sub-command parsers get their own names as context, see `commands_unfold`) -/
+theorem names_handed_upwards (q a b : OP) (l : String) (c : OP) (subs : Subs) :
+    (OP.optional q).optionNames = q.optionNames ∧ (OP.many q).optionNames = q.optionNames ∧
+    (OP.prod a b).optionNames = a.optionNames ++ b.optionNames ∧ (OP.sum l a b).optionNames = a.optionNames ++ b.optionNames ∧
+    (OP.commands c subs).optionNames = [] ∧
+    (OP.optional q).flagNames = q.flagNames ∧ (OP.many q).flagNames = q.flagNames ∧
+    (OP.prod a b).flagNames = a.flagNames ++ b.flagNames ∧ (OP.sum l a b).flagNames = a.flagNames ++ b.flagNames ∧
+    (OP.commands c subs).flagNames = [] := by
+  simp [OP.optionNames, OP.flagNames]
+
+/-- **`commands::parse`**: the vector is split at the first positional argument w.r.t. the *common* parser's option names;
+the common parser must consume everything in front of it (`parse_to_empty`, any failure becomes an `other_error` with the
+same text); the selected sub-command's parser runs on what follows **with its own option names as context** (not the
+caller's and not the common parser's) and its leftover state is the result's state -/
+theorem commands_unfold (f : Nat) (common : OP) (subs : Subs) (st : List Arg) (c : Ctx) :
+    parse (f + 1) (.commands common subs) st c =
+      match splitNext st common.optionNames with
+      | none => .error (.missing st ("No command specified from " ++ showList (subs.map Prod.fst)))
+      | some (first, name, second) =>
+        match findSub name.2 subs with
+        | none => .error (.other ("Invalid command " ++ name.2))
+        | some (tag, q) =>
+          match parse f common first common.optionNames with
+          | .error .diverge => .error .diverge
+          | .error e => .error (.other e.msg)
+          | .ok (rest, ro, lgo) =>
+            if !rest.isEmpty then .error (.other (leftoverText rest))
+            else match parse f q second q.optionNames with
+              | .error e => .error e
+              | .ok (st', rq, lgq) =>
+                .ok (st', [("options", .recd ro), ("sub", .recd [(tag, .recd rq)])], lgo ++ (name.1, "cmd") :: lgq) :=
+  parse_commands_eq f common subs st c
+
+/-- what `options::parse` says when arguments are left over: exactly the unconsumed ones, in order -/
+theorem parseTop_leftover {f : Nat} {p : OP} {args : List String} {st' : List Arg} {r : Rec} {lg : Log}
+    (h : parse f p (index args) p.optionNames = .ok (st', r, lg)) (hne : st' ≠ []) :
+    parseTop f p args = .error (.error ("Leftover arguments " ++ showList (st'.map Prod.snd))) := by
+  unfold parseTop parseToEmpty
+  rw [h]
+  cases st' with
+  | nil => exact absurd rfl hne
+  | cons a b => rfl
 
 /-! ## the help wrapper -/
 
